@@ -239,7 +239,7 @@ SigScalars == {"bool", "char", "schar", "uchar", "short", "ushort", "int", "uint
 SigBegin ==
   /\ Mode = "sig" /\ phase = "idle"
   /\ \E np \in 0..MaxParams, va \in BOOLEAN, rk \in {"void", "sc", "agg"} :
-       /\ va => np >= 1
+       \* C23: a variadic function needs no named parameter (`double vsum(...)`): the marker is then the first call operand
        /\ rk = "agg" => st.nagg > 0
        /\ \E r \in (IF rk = "void" THEN {[k |-> "void"]}
                     ELSE IF rk = "sc" THEN {[k |-> "sc", n |-> x] : x \in SigScalars}
@@ -321,10 +321,18 @@ IdentOne ==
 
 AInit ==
   IF Mode = "ident"
-  THEN /\ outs = <<>> /\ pick = "" /\ phase = "idle" /\ want = 0 /\ pool = <<>>
-       /\ LET n == Len(AInput) IN \E i \in 1..n, v \in {"", "u", "r"} :
-            /\ st = [ret |-> IF v = "u" THEN [k |-> "void"] ELSE [k |-> "agg", i |-> i], va |-> FALSE, nagg |-> n, fresh |-> v]
-            /\ ms = IF v = "r" THEN <<>> ELSE <<[k |-> "agg", i |-> i, nm |-> v # "u"]>>
+  THEN /\ pick = "" /\ phase = "idle" /\ want = 0 /\ pool = <<>>
+       /\ LET n == Len(AInput) IN
+          \/ \E i \in 1..n, v \in {"", "u", "r"} :
+               /\ st = [ret |-> IF v = "u" THEN [k |-> "void"] ELSE [k |-> "agg", i |-> i], va |-> FALSE, nagg |-> n, fresh |-> v]
+               /\ ms = IF v = "r" THEN <<>> ELSE <<[k |-> "agg", i |-> i, nm |-> v # "u"]>>
+               /\ outs = <<>>
+          \* variadic matrix: 0, 1, 2 named parameters x 0, 1, 3 variable arguments (integer, floating, aggregate);
+          \* the marker sits at index nparam, i.e. first for `f(...)`
+          \/ \E np \in {0, 1, 2}, nx \in {0, 1, 3}, xk \in {"int", "double", "float", "agg"} :
+               /\ st = [ret |-> [k |-> "sc", n |-> "double"], va |-> TRUE, nagg |-> n, fresh |-> ""]
+               /\ ms = [j \in 1..np |-> [k |-> "sc", n |-> IF j = 1 THEN "int" ELSE "double", nm |-> TRUE]]
+               /\ outs = [j \in 1..nx |-> IF xk = "agg" THEN [k |-> "agg", i |-> 1] ELSE [k |-> "sc", n |-> xk]]
   ELSE IF Mode \in {"judge", "sig"}
   THEN /\ ms = <<>> /\ outs = <<>> /\ pick = "" /\ phase = "idle" /\ want = 0
        /\ LET inp == AInput IN
